@@ -258,25 +258,25 @@ theorem addClasses_safe (tags : List (List Char)) (n : Node) (hn : n.Safe)
       · exact hvals v hv
 
 mutual
-theorem FTree.intoNodes_safe : ∀ (t : FTree), t.TagsOk → ∀ n ∈ t.intoNodes, n.Safe
+theorem FTree.intoNodes_safe (k : Int) : ∀ (t : FTree), t.TagsOk → ∀ n ∈ t.intoNodes k, n.Safe
   | .node f tags kids, h => by
     cases h with
     | node _ _ _ htags hkids =>
       intro n hn
       simp only [FTree.intoNodes, List.mem_cons] at hn
       rcases hn with rfl | hn
-      · exact addClasses_safe tags _ (Frag.toNode_safe f) htags
-      · exact FTree.intoNodesList_safe kids hkids n hn
+      · exact addClasses_safe tags _ (Frag.toNode_safe _) htags
+      · exact FTree.intoNodesList_safe k kids hkids n hn
 
-theorem FTree.intoNodesList_safe : ∀ (ts : List FTree), (∀ k ∈ ts, k.TagsOk) →
-    ∀ n ∈ FTree.intoNodesList ts, n.Safe
+theorem FTree.intoNodesList_safe (k : Int) : ∀ (ts : List FTree), (∀ t ∈ ts, t.TagsOk) →
+    ∀ n ∈ FTree.intoNodesList k ts, n.Safe
   | [], _ => by simp [FTree.intoNodesList]
-  | k :: ks, h => by
+  | t :: ts, h => by
     intro n hn
     simp only [FTree.intoNodesList, List.mem_append] at hn
     rcases hn with hn | hn
-    · exact FTree.intoNodes_safe k (h k (by simp)) n hn
-    · exact FTree.intoNodesList_safe ks (fun k' hk' => h k' (List.mem_cons_of_mem _ hk')) n hn
+    · exact FTree.intoNodes_safe k t (h t (by simp)) n hn
+    · exact FTree.intoNodesList_safe k ts (fun t' ht' => h t' (List.mem_cons_of_mem _ ht')) n hn
 end
 
 mutual
@@ -337,13 +337,13 @@ end Svgbob
 namespace Svgbob
 
 /-- every node of the flattened containment forest is safe -/
-theorem fragmentsToNodes_safe (len : List Char → Nat) (unit : Int) (frags : List Frag) :
-    ∀ n ∈ fragmentsToNodes len unit frags, n.Safe := by
+theorem fragmentsToNodes_safe (len : List Char → Nat) (k : Int) (frags : List Frag) :
+    ∀ n ∈ fragmentsToNodes len k frags, n.Safe := by
   unfold fragmentsToNodes encloseRecursive
   apply FTree.intoNodesList_safe
   apply G.mergeRec_forall _ FTree.TagsOk
   · intro g it m hm hg hi
-    exact FTree.encloseDF_tagsOk len unit it hi g m hg hm
+    exact FTree.encloseDF_tagsOk len 1000 it hi g m hg hm
   · intro x hx
     simp only [List.mem_map] at hx
     obtain ⟨f, _, rfl⟩ := hx
